@@ -137,11 +137,11 @@ static int run_child(const char *label, int (*fn)(void))
     return 0;
 }
 
-int main(int argc, char **argv)
+int main(void)
 {
-    int v = 0;
+    int v = 0, controlsFailed = 0;
 
-    g_trace = (argc > 1);
+    g_trace = (getenv("TRACE") != NULL);
     if (matrixSslOpen() < 0)
     {
         return 2;
@@ -150,11 +150,27 @@ int main(int argc, char **argv)
             "<- Evil CA2(RSA-4096)], trust={Good Root CA})", child_validate);
     v += run_child("TLS 1.3 client receiving that chain from a server",
             child_tls13);
+    controlsFailed += !control_validate("honest Ed25519-signed leaf under "
+            "its Ed25519 CA", CERTDIR "/ok_ed_leaf.pem",
+            CERTDIR "/ok_ed_ca.pem");
+    controlsFailed += !control_validate("honest RSA chain",
+            CERTDIR "/ok_chain.pem", CERTDIR "/d1_root.pem");
+    controlsFailed += !control_connect("TLS 1.3, honest RSA chain",
+            CERTDIR "/d1_root.pem", CERTDIR "/ok_chain.pem",
+            CERTDIR "/ok_leaf.key", v_tls_1_3, NULL);
+    controlsFailed += !control_connect("TLS 1.2, honest RSA chain",
+            CERTDIR "/d1_root.pem", CERTDIR "/ok_chain.pem",
+            CERTDIR "/ok_leaf.key", v_tls_1_2, NULL);
     matrixSslClose();
+    if (controlsFailed)
+    {
+        printf("CONTROL FAILED: an honest chain was refused\n");
+        return 3;
+    }
     if (v)
     {
         return 1;
     }
-    printf("no violation\n");
+    printf("OK: no violation\n");
     return 0;
 }
